@@ -1,5 +1,5 @@
 /-
-  C18 — parsers return a value or an error for every input, never panic.
+  C18 — parsers return a value or an error for every input, never panic, never loop.
 
   FULL STATEMENT (kept visible):
     for each of the eight entry points P (term, list, complex term, function, query, subgoal,
@@ -23,14 +23,27 @@
       of the input). Every parser is monotone in its fuel (`Lemmas/ParseMono.lean`), so the outcome does not
       depend on it. The fuel bounds the DEPTH of the recursion, not the total work: that the work is not
       exponential (defect D18) is decided by the timed deep-nesting cases of the correspondence suite.
-  NOT PROVED (`_partial`): the token grouping stage of generate_goal / parse_rule never PANICS
-  (token_tree_to_goal: `panic!` on a leaf token that is not a subgoal or on a group without exactly one
-  child; needs the grammar of the token lists the tokenizer can produce). Decided on every run by the
-  correspondence suite (random, mutated and ALL short strings through all eight entry points, outcome
-  classes ok / err / panic / timeout compared with the model) and by the no-panic oracle.
+    * the goal-level pipeline never panics either (`generate_goal_never_panics`, `parse_rule_never_panics`):
+      `token_tree_to_goal` panics on a group without exactly one child and on a leaf that is not a subgoal;
+      both are excluded by invariants carried through the four stages (`Lemmas/ParseGroup.lean`):
+        - tokenizer (`tokLoop_TokOK`): every token is a leaf; the first token and the token after every `(`
+          token is a subgoal or another `(`. This needs the tokenizer's bookkeeping: a piece of text that
+          began at a freshly set `start_index` cannot be just `,` `;` `(` or `)` (such a character would have
+          been acted on, the stack being outside complex terms and lists), and the piece that is left over
+          after a group closed contains that group's `)` and so is never the token `(`;
+        - group_tokens (`groupTokens_S0`): every group, nested or not, starts with a subgoal or a group;
+        - group_and_tokens / group_or_tokens (`groupAnd_S0`, `groupOr_S1`): a group ends up with exactly one
+          child — a subgoal, a conjunction, a disjunction or a processed group — on which the recursion
+          cannot panic (`NP`).
+  So for every input string, every instance of the std parameters and every fuel, none of the eight entry
+  points panics, and none fails to return. Outside the theorems: the fidelity of the model (correspondence
+  suite: random, mutated and ALL short strings through all eight entry points, outcome classes ok / err /
+  panic / timeout compared with the model; seeded change C18e is exactly the tokenizer slip these invariants
+  exclude) and the total work (fuel bounds depth; timed cases).
 -/
 import SuironVerif.Lemmas.ParseSafe
 import SuironVerif.Lemmas.ParseTerminates
+import SuironVerif.Lemmas.ParseGroup
 namespace Suiron.C18
 open Suiron.Parse
 
@@ -176,7 +189,18 @@ theorem parse_subgoal_never_panics (po : POps) : ∀ (f : Nat) (s : Text), parse
 
 
 /-- the tokenizer (first stage of generate_goal / parse_rule) never panics -/
-theorem tokenize_never_panics_partial (s : Text) : tokenize s ≠ .panic := tokenize_ne_panic' s
+theorem tokenize_never_panics (s : Text) : tokenize s ≠ .panic := tokenize_ne_panic' s
+
+/-- generate_goal never panics: the grouping stage never meets an empty group or a leaf that is not a subgoal -/
+theorem generate_goal_never_panics (po : POps) (f : Nat) (s : Text) : generateGoal po f s ≠ .panic :=
+  generateGoal_ne_panic po (parse_subgoal_never_panics po) f s
+
+/-- parse_rule never panics -/
+theorem parse_rule_never_panics (po : POps) (f : Nat) (s : Text) : parseRule po f s ≠ .panic :=
+  parseRule_ne_panic po (parse_subgoal_never_panics po) (parse_complex_never_panics po) f s
+
+/-- what the tokenizer guarantees about its output -/
+theorem tokenizer_output_shape (s : Text) (ts : List Token) (h : tokenize s = .ok ts) : TokOK ts := tokenize_TokOK s ts h
 
 /-! ### termination -/
 
@@ -211,6 +235,42 @@ theorem parse_rule_outcome_unique (po : POps) (s : Text) (f f' : Nat) (h : parse
     parseRule po f s = parseRule po f' s := parseRule_unique po s f f' h h'
 theorem parse_term_outcome_unique (po : POps) (s : Text) (f f' : Nat) (h : parseTerm po f s ≠ .oof) (h' : parseTerm po f' s ≠ .oof) :
     parseTerm po f s = parseTerm po f' s := parseTerm_unique po s f f' h h'
+
+/-! ### C18 as stated: a result or an error -/
+
+theorem Res.ok_or_fail {α} {r : Res α} (h1 : r ≠ .panic) (h2 : r ≠ .oof) : (∃ x, r = .ok x) ∨ r = .fail := by
+  cases r with
+  | ok x => exact Or.inl ⟨x, rfl⟩
+  | fail => exact Or.inr rfl
+  | panic => exact absurd rfl h1
+  | oof => exact absurd rfl h2
+
+/-- parse_term returns a term or an error for every input -/
+theorem C18_term (po : POps) (s : Text) (f : Nat) (hf : 3 * s.length + 3 ≤ f) :
+    (∃ t, parseTerm po f s = .ok t) ∨ parseTerm po f s = .fail :=
+  Res.ok_or_fail (parse_term_never_panics po f s) (parse_term_terminates po s f hf)
+
+/-- parse_subgoal returns a goal or an error for every input -/
+theorem C18_subgoal (po : POps) (s : Text) (f : Nat) (hf : 3 * s.length + 4 ≤ f) :
+    (∃ g, parseSubgoal po f s = .ok g) ∨ parseSubgoal po f s = .fail :=
+  Res.ok_or_fail (parse_subgoal_never_panics po f s) (parse_subgoal_terminates po s f hf)
+
+/-- parse_query returns a query or an error for every input -/
+theorem C18_query (po : POps) (s : Text) (f : Nat) (hf : 3 * s.length ≤ f) :
+    (∃ g, parseQuery po f s = .ok g) ∨ parseQuery po f s = .fail :=
+  Res.ok_or_fail (parse_query_never_panics po f s) (parse_query_terminates po s f hf)
+
+/-- generate_goal returns a goal or an error for every input -/
+theorem C18_goal (po : POps) (s : Text) : ∃ f0, ∀ f, f0 ≤ f →
+    (∃ g, generateGoal po f s = .ok g) ∨ generateGoal po f s = .fail := by
+  obtain ⟨f0, h⟩ := generate_goal_terminates po s
+  exact ⟨f0, fun f hf => Res.ok_or_fail (generate_goal_never_panics po f s) (h f hf)⟩
+
+/-- parse_rule returns a rule or an error for every input -/
+theorem C18_rule (po : POps) (s : Text) : ∃ f0, ∀ f, f0 ≤ f →
+    (∃ r, parseRule po f s = .ok r) ∨ parseRule po f s = .fail := by
+  obtain ⟨f0, h⟩ := parse_rule_terminates po s
+  exact ⟨f0, fun f hf => Res.ok_or_fail (parse_rule_never_panics po f s) (h f hf)⟩
 
 /-! non-vacuity / witnesses: the inputs on which the pinned tree panicked are errors in the model of
     the repaired code, and ordinary inputs parse -/
